@@ -11,7 +11,7 @@ ID = "C13"
 LEVEL = "exploration"
 RULE = ("Hypothesis draws (variable definition, candidate value) pairs per variable type: definitions from all bound "
         "classes up to |b|<=1e300 / choice lists of mixed types / item lists; candidates = members, boundary, "
-        "1-ulp outside, far outside, +-1e308, +-inf, fractional, -0.0, Python ints, numpy float64/int64 scalars, "
+        "1-ulp outside, far outside, +-1e308, +-inf, fractional, -0.0, Python ints, numpy float64/float32/int64 scalars, "
         "ties and near-ties for permutations. Laws: randomize in domain; correct(v) in domain; correct(member) == "
         "member; correct idempotent; decode(correct(v)) is a declared choice / consistent rearrangement; multi-"
         "variables = child law coordinate-wise; invalid definitions raise ValidationError. Non-trivial = correct "
@@ -80,7 +80,7 @@ def wide_bounds(draw):
 @st.composite
 def cont_value(draw, lb, ub):
     k = draw(st.sampled_from(["in", "lb", "ub", "below1", "above1", "below", "above", "huge", "inf", "negzero",
-                              "int", "np64", "npint"]))
+                              "int", "np64", "np32", "npint"]))
     if k == "in":
         v = draw(_f(lb, ub))
     elif k == "lb":
@@ -105,6 +105,8 @@ def cont_value(draw, lb, ub):
         v = draw(st.integers(-10 ** 6, 10 ** 6))
     elif k == "np64":
         v = np.float64(draw(_f(min(lb, -10.0), max(ub, 10.0))))
+    elif k == "np32":
+        v = np.float32(draw(_f(max(min(lb, -10.0), -3e38), min(max(ub, 10.0), 3e38))))
     else:
         v = np.int64(draw(st.integers(-1000, 1000)))
     boundary = k in ("lb", "ub", "below1", "above1", "inf", "huge", "negzero")
